@@ -486,6 +486,22 @@ _upd('C07', text_add='Added (contracts/remap.py): Scope.resolve and the renaming
                      'referenced local symbol gets a generated name outside the reserved set, names pairwise different, every other entry untouched '
                      '(quantified loop invariants, z3).')
 
+# ---- seventh round (seeds L/M) --------------------------------------------------------------------------------------------
+for _cid in ('C01', 'C02'):
+    _upd(_cid, text_add='Corpus: runs of layout-only chunks of every length in a range (function expressions closing together), an empty block behind such a run, '
+                        'a prefix ++ / -- statement directly behind a block, holes inside nested array literals.')
+_upd('C02', note='Known findings F7, F8, F9, F29 (drop_semi drops the terminator of a statement followed only by brace / semicolon tokens).')
+_upd('C03', text_add='lex.number also over digits of other scripts (a \\d in the pattern would accept them), against an independent hand-written NumericLiteral recogniser.')
+_upd('C07', text_add='Scoping programs added: hoisting seen from an inner scope that closes before the nearer declaration appears.')
+_upd('C12', text_add='Inputs added: format-control and control characters at the very end of the input and before trailing white space.')
+_upd('C14', text_add='The tree is compared before / after through every attribute of every reachable node (private ones and token maps included), not only its repr.')
+_upd('C17', text_add='purge_tabs also with one or none of the two generated modules present; `__debug__` is an arbitrary boolean for the VC generator '
+                     '(how the interpreter was started may not change which tables are used).')
+_upd('C18', text_add='Node collections given as tuple / iterator / generator (also interleaved with non-nodes) against the list form; normrelpath with bases in the '
+                     'root directory under three working directories.')
+_upd('C20', text_add='BaseUnparser.__init__ under contract (the printer has its own definitions table with the given entries); the ownership obligations of C14 '
+                     'are imported (no printer object or table is shared between calls).')
+
 # ---- texts rewritten where the first-round wording had been overtaken (the _upd additions above say what was added; these say what holds now)
 _upd('C07', engine='E1 pyvc + frame + E4 + E3 side obligations', technique=(
     'deductive contracts (E1, z3) on the whole renaming machinery of handlers/obfuscation.py: symbol tables over arbitrary sets / dicts (z3 arrays), '
